@@ -137,6 +137,15 @@ def crash_enumerate(ctx):
                     if ctx.quick() and delay and not (name == "token" and k == 1 and where == "after-spawn"):
                         continue
                     yield dict(base, procs=[{"name": "xp", "offset": 0.0, "jobs": [0, 1, 2]}], kill=None, crash=f"{k}:{where}", restart_delay=delay, shape=name)
+                # the other order of the race between the job process left behind (it has yet to
+                # take the job lock) and the restarted scheduler: the job process is stopped and
+                # resumed some time after the restart (a slow start), so the scheduler always
+                # reaches the job directory, the job lock and the token file first
+                if where != "before-spawn":
+                    for pause in (3.0,) if ctx.quick() else (1.0, 3.0):
+                        if ctx.quick() and k != 1:
+                            continue
+                        yield dict(base, procs=[{"name": "xp", "offset": 0.0, "jobs": [0, 1, 2]}], kill=None, crash=f"{k}:{where}", restart_delay=0, orphan_pause=pause, shape=name)
 
 
 PARTS = [
